@@ -69,36 +69,6 @@ func drawCase(t *rapid.T) caseT {
 			c.Versions = append(c.Versions, versionT{Split: s, Path: 0, V: rapid.IntRange(0, 3).Draw(t, "v0")})
 		}
 	}
-	if hx.Known(knownSharedVersion) {
-		// exclude by construction: a content shared by >= 2 splits on a path that also has a distinct version
-		byPath := map[int][]int{}
-		for i, v := range c.Versions {
-			byPath[v.Path] = append(byPath[v.Path], i)
-		}
-		for _, idx := range byPath {
-			seen := map[int]int{}
-			distinct := map[int]bool{}
-			for _, i := range idx {
-				seen[c.Versions[i].V]++
-				distinct[c.Versions[i].V] = true
-			}
-			if len(distinct) < 2 {
-				continue
-			}
-			shared := false
-			for _, n := range seen {
-				if n > 1 {
-					shared = true
-				}
-			}
-			if shared {
-				stats.Count("excluded_"+knownSharedVersion, 1)
-				for _, i := range idx {
-					c.Versions[i].V = 10 + c.Versions[i].Split // all distinct
-				}
-			}
-		}
-	}
 	perm := rapid.Permutation(seq(len(c.Versions))).Draw(t, "times")
 	for i := range c.Versions {
 		c.Versions[i].Time = perm[i]
@@ -345,7 +315,21 @@ func sharedVersionClass(vers map[string][]verT) bool {
 	return false
 }
 
-func checkResult(mode model.ConflictMode, sp specT, r commitRes, shared bool) error {
+// mainOnly drops the conflict/checkpoint entries when only the main tree is comparable (relaxed mode)
+func mainOnly(m map[string]entryT, relaxed bool) map[string]entryT {
+	if !relaxed {
+		return m
+	}
+	out := map[string]entryT{}
+	for p, e := range m {
+		if !strings.HasPrefix(p, ".conflicts/") && !strings.HasPrefix(p, ".checkpoints/") {
+			out[p] = e
+		}
+	}
+	return out
+}
+
+func checkResult(mode model.ConflictMode, sp specT, r commitRes, shared bool, relaxed bool) error {
 	if mode == model.ForbidConflicts {
 		if sp.conflict && r.err == nil {
 			return fmt.Errorf("forbid mode: commit succeeded although splits uploaded different content for a path")
@@ -398,6 +382,18 @@ func checkResult(mode model.ConflictMode, sp specT, r commitRes, shared bool) er
 		}
 		for p, e := range extras {
 			w, ok := want[p]
+			if !ok && relaxed {
+				// known finding: a copy identical to the winner may be filed; it must still be that split's upload
+				rest := strings.TrimPrefix(p, prefix)
+				i := strings.Index(rest, "/")
+				if i < 0 {
+					return fmt.Errorf("malformed entry %q", p)
+				}
+				if win, isPath := sp.main[rest[i+1:]]; !isPath || win != e {
+					return fmt.Errorf("entry %q holds %s.. which is neither a losing version of that split nor the winner's content", p, e.hash[:8])
+				}
+				continue
+			}
 			if !ok {
 				return fmt.Errorf("unexpected entry %q: that split did not upload a losing distinct version of the path (identical contents are not conflicts)", p)
 			}
@@ -432,6 +428,9 @@ func checkResult(mode model.ConflictMode, sp specT, r commitRes, shared bool) er
 		}
 	}
 	hasExtras := len(extras) > 0
+	if relaxed {
+		return nil
+	}
 	if mode == model.EnableConflicts && (r.desc.HasConflicts != hasExtras || r.desc.HasCheckpoints) {
 		return fmt.Errorf("HasConflicts=%v HasCheckpoints=%v but %d conflict entries", r.desc.HasConflicts, r.desc.HasCheckpoints, len(extras))
 	}
@@ -478,6 +477,14 @@ func runCase(c caseT) (outcome, error) {
 	}
 	sp := computeSpec(vers)
 	shared := sharedVersionClass(vers)
+	// Known finding: for the shared-version class the SET of conflict entries depends on the arrival order.
+	// While it is listed, such cases are still run, but only what the finding does not touch is asserted:
+	// the main tree (latest write wins, in every mode and order), forbid-mode verdicts, and that every
+	// conflict entry is a version its split really uploaded.
+	relaxed := shared && hx.Known(knownSharedVersion)
+	if relaxed {
+		stats.Count("relaxed_"+knownSharedVersion, 1)
+	}
 	out.nontrivial = sp.conflict
 	shape := fmt.Sprintf("splits=%d conflictpaths=%d shared=%v", c.NSplits, len(sp.losers), shared)
 	for _, mode := range modes {
@@ -487,13 +494,13 @@ func runCase(c caseT) (outcome, error) {
 			if err != nil {
 				return out, fmt.Errorf("mode %s order %v: %v", mode, order, err)
 			}
-			if err := checkResult(mode, sp, r, shared); err != nil {
+			if err := checkResult(mode, sp, r, shared, relaxed); err != nil {
 				return out, fmt.Errorf("mode %s, intended arrival order %v, achieved %v: %v", mode, order, r.achieved, err)
 			}
 			if first == nil {
 				rr := r
 				first = &rr
-			} else if r.err == nil && first.err == nil && render(r.entries) != render(first.entries) {
+			} else if r.err == nil && first.err == nil && render(mainOnly(r.entries, relaxed)) != render(mainOnly(first.entries, relaxed)) {
 				return out, fmt.Errorf("mode %s: the committed bundle depends on the order in which split file lists are read: order %v (achieved %v) gives %s ; order %v (achieved %v) gives %s",
 					mode, c.Orders[0], first.achieved, render(first.entries), order, r.achieved, render(r.entries))
 			}
@@ -584,10 +591,63 @@ func TestRegressThreeSplits(t *testing.T) {
 	}
 	// same content, refreshed time: (t0:h1 s0), (t2:h1 s1), (t1:h2 s2) -> main must be h1
 	c = caseT{NSplits: 3, Versions: []versionT{{0, 0, 1, 0}, {1, 0, 1, 2}, {2, 0, 2, 1}}, Orders: [][]int{{0, 1, 2}}}
-	if hx.Known(knownSharedVersion) {
-		return // falls in the listed class
-	}
 	if _, err := runCase(c); err != nil {
 		t.Fatalf("%v", err)
+	}
+}
+
+// TestRegressBigSplit crosses the 1000-entries-per-index-file boundary of split and bundle file lists:
+// a single-split diamond of n files must commit to the same bundle as a plain upload of those files
+func TestRegressBigSplit(t *testing.T) {
+	for _, n := range []int{999, 1000, 1001} {
+		sc := hx.NewScratch()
+		tree := hx.Tree{}
+		for i := 0; i < n; i++ {
+			tree[fmt.Sprintf("d%d/f%04d", i%5, i)] = []byte(fmt.Sprintf("content %d", i%37))
+		}
+		env := hx.NewEnv()
+		v := env.Actor("big")
+		if err := hx.CreateRepo(v.Stores, repo); err != nil {
+			t.Fatal(err)
+		}
+		d, err := hx.CreateDiamond(v.Stores, repo)
+		if err != nil {
+			t.Fatal(err)
+		}
+		dir := sc.Dir("split")
+		if err := tree.Write(dir); err != nil {
+			t.Fatal(err)
+		}
+		if _, err := hx.SplitAdd(v.Stores, repo, d.DiamondID, "big-split", dir); err != nil {
+			t.Fatalf("n=%d split add: %v", n, err)
+		}
+		dd, err := hx.Commit(v.Stores, repo, d.DiamondID, model.EnableConflicts)
+		if err != nil {
+			t.Fatalf("n=%d commit: %v", n, err)
+		}
+		plainID, err := hx.UploadTree(sc, v.Stores, repo, tree, 0)
+		if err != nil {
+			t.Fatalf("n=%d plain upload: %v", n, err)
+		}
+		read := func(id string) map[string]entryT {
+			b := hx.NewBundle(repo, v.Stores, nil, 0, core.BundleID(id))
+			if err := core.DownloadMetadata(context.Background(), b); err != nil {
+				t.Fatalf("n=%d: bundle %s unreadable: %v", n, id, err)
+			}
+			out := map[string]entryT{}
+			for _, e := range b.BundleEntries {
+				out[e.NameWithPath] = entryT{e.Hash, e.Size}
+			}
+			return out
+		}
+		got, want := read(dd.BundleID), read(plainID)
+		if len(want) != n {
+			t.Fatalf("n=%d: plain upload lists %d entries", n, len(want))
+		}
+		if render(got) != render(want) {
+			t.Fatalf("n=%d: single-split diamond lists %d entries, the plain upload of the same files %d", n, len(got), len(want))
+		}
+		stats.Case(fmt.Sprintf("bigsplit n=%d", n), true, func() interface{} { return fmt.Sprintf("single split of %d files vs plain upload", n) })
+		sc.Close()
 	}
 }
